@@ -437,6 +437,11 @@ impl<T, Ptr: PointerFamily> MetaQueue<T, Ptr> {
     pub(crate) unsafe fn push_with_overflow_impl(&mut self, value: T) -> Option<T> {
         self.verify_init("push_with_overflow()");
 
+        if self.capacity == 0 {
+            // nothing can be stored, the value itself is the one that falls out of the queue
+            return Some(value);
+        }
+
         let overridden_value = if self.len() == self.capacity() {
             unsafe { self.pop_impl() }
         } else {
